@@ -8,7 +8,7 @@ from permute.utils import binom_conf_interval
 COQ_HEADER = """From PV Require Import Lib.Base Model.ConfInt Corr.C12.
 Open Scope Q_scope."""
 RULE = ("grid n in 1..12 (quick; thorough 1..40) x all x x cl in {1/2, 4/5, 9/10, 19/20, 39/40, 99/100} x alternatives, random "
-        "n<=40 (thorough 100), starting points p in {None, 0, 1/2, 1, x/n}, documented solver keywords (xtol, rtol, maxiter); the "
+        "n<=40 (thorough 100), starting points p in {None, 0, 1/2, 1, x/n}, documented solver keywords (xtol, rtol, maxiter), a fifth of the grid cases preceded by a call with coarse tolerances (xtol 0.05 / 1e-3 / 0.01) that must not influence the certified plain call; the "
         "returned floats are turned into exact rationals and certified by the Gallina checker cp_check with brackets of width "
         "<= 3e-9 on a 1e-12 grid; non-trivial = 0<x<n so that both limits are solved numerically; distinct by (n,x,cl,alt,p,kwargs)")
 EXHAUSTIVE = {"quick": ["n<=12, all x, 6 levels, 3 alternatives"], "thorough": ["n<=40, all x, 6 levels, 3 alternatives"]}
@@ -27,7 +27,11 @@ def cases(tier, rng, dist):
             for cl in CLS:
                 for alt in CALT:
                     if tier == "quick" and n > 6 and (n + x + len(cl) + len(alt)) % 3: continue
-                    yield {"n": n, "x": x, "cl": cl, "alt": alt, "p": None, "kw": None}
+                    c = {"n": n, "x": x, "cl": cl, "alt": alt, "p": None, "kw": None}
+                    if (n * 7 + x * 3 + len(cl)) % 5 == 0:
+                        # a call with coarse documented solver tolerances FIRST: it must not influence the later plain call
+                        c["warm"] = [{"xtol": 0.05}, {"xtol": 1e-3, "rtol": 1e-3}, {"xtol": 0.01, "maxiter": 60}][(n + x) % 3]
+                    yield c
     for _ in range(150 if tier == "quick" else 1500):
         n = rng.randint(1, 40 if tier == "quick" else 100); x = rng.randint(0, n)
         yield {"n": n, "x": x, "cl": rng.choice(CLS), "alt": rng.choice(list(CALT)), "p": rng.choice([None, None, "0", "1/2", "1", "x/n", "1/1000"]),
@@ -44,8 +48,11 @@ def call(c, p="use", kw="use"):
 
 
 def run(c):
+    out = {}
+    if c.get("warm"):
+        out["warm"] = list(call(c, p=None, kw=c["warm"]))
     r = call(c)
-    out = {"r": list(r)}
+    out["r"] = list(r)
     if c["p"] is not None or c["kw"] is not None:
         out["plain"] = list(call(c, p=None, kw=None))
     if c["x"] + 1 <= c["n"]:
@@ -89,6 +96,10 @@ def oracle(c, o):
             return {"why": f"upper limit {U}: P_p(X<={x}) = {float(tails(n, x, Fraction(U))[1])} is not the tail level {float(a)} (n={n}, cl={c['cl']}, {c['alt']})", "cls": "binom_conf_interval:upper-limit"}
     if Fraction(c["cl"]) >= Fraction(1, 2) and c["alt"] == "two-sided" and not (L - 1e-9 <= x / n <= U + 1e-9):
         return {"why": f"x/n={x / n} outside [{L},{U}]", "cls": "binom_conf_interval:mle-outside"}
+    if "warm" in o:
+        w = o["warm"]; tol = 2 * c["warm"]["xtol"] + 1e-6
+        if w[0] != "ok" or not (0 <= w[1][0] <= w[1][1] <= 1) or abs(w[1][0] - L) > tol or abs(w[1][1] - U) > tol:
+            return {"why": f"binom_conf_interval({n}, {x}, cl={c['cl']}, {c['alt']}, **{c['warm']}) returned {w}; with default tolerances {r[1]}", "cls": "binom_conf_interval:kwargs"}
     if "plain" in o:
         pl = o["plain"]
         if pl[0] != "ok" or abs(pl[1][0] - L) > 1e-8 or abs(pl[1][1] - U) > 1e-8:
